@@ -48,8 +48,27 @@ def main():
         sys.exit(r.returncode)
     r = subprocess.run(["timeout", "7000", "make", "-C", COQ, "-j16", "-k"])
     if r.returncode:
+        # A file that no registered check needs must not take the registered checks down with it.
         print("SETUP: some Coq files failed to build (see above)")
-        sys.exit(r.returncode)
+        missing = []
+        try:
+            import importlib
+            import json
+            sys.path.insert(0, os.path.dirname(os.path.abspath(__file__)))
+            os.environ.setdefault("PYTHONPATH", "/repo/src")
+            sys.path.insert(0, "/repo/src")
+            man = json.load(open(os.path.join(VERIF, "MANIFEST.json")))
+            for c in man["checks"]:
+                mod = importlib.import_module("props." + c["property_id"])
+                for rel in mod.PROP.prebuilt:
+                    if not os.path.exists(os.path.join(COQ, rel[:-2] + ".vo")):
+                        missing.append("%s needs %s" % (c["property_id"], rel))
+        except Exception as e:
+            missing.append("could not determine the needs of the registered checks: %r" % (e,))
+        if missing:
+            print("SETUP FAILED:\n" + "\n".join(missing))
+            sys.exit(r.returncode)
+        print("SETUP: every file needed by a registered check is built; continuing")
     if "--no-gate" not in sys.argv:
         bad = gate()
         if bad:
